@@ -90,159 +90,211 @@ def r1_symbol_tables(ctx, sym):
     return tables
 
 
+class CaitModel:
+    """Model CaitNodes whose derived attributes (ast_name, op_name, ops, func, ...) are computed by interpreting
+    CaitNode.__getattr__ itself over model ast objects."""
+
+    def __init__(self, ctx, sym):
+        from ..fdeval import module_resolver
+        self.mod = ctx.repo.module(NODE)
+        self.cls = self.mod.cls('CaitNode')
+        self.ga = self.mod.func('CaitNode.__getattr__')
+        self.gan = self.mod.func('CaitNode.get_ast_name')
+        ctx.analysed_function(self.mod, self.ga)
+        ctx.analysed_function(self.mod, self.gan)
+        self.sym = sym
+
+    def configure(self, fd):
+        """Teach an interpreter the handful of reflection builtins __getattr__ uses, on model objects."""
+        def b_type(o):
+            if isinstance(o, Obj):
+                return Obj('type', __name__=o.attrs.get('__astclass__', o._name), __closed__=True)
+            return Obj('type', __name__=type(o).__name__, __closed__=True)
+
+        def b_hasattr(o, k):
+            if isinstance(o, Obj):
+                return k in o.attrs and not k.startswith('__')
+            return hasattr(o, k)
+
+        def b_isinstance(o, t):
+            ts = t if isinstance(t, tuple) else (t,)
+            for x in ts:
+                if x == 'ast.AST' and isinstance(o, Obj) and '__astclass__' in o.attrs:
+                    return True
+                if isinstance(x, type) and not isinstance(o, Obj) and isinstance(o, x):
+                    return True
+            return False
+        fd.calls.setdefault('type', b_type)
+        fd.calls.setdefault('hasattr', b_hasattr)
+        fd.calls.setdefault('isinstance', b_isinstance)
+        fd.functions.setdefault('CaitNode.get_ast_name', self.gan)
+        return fd
+
+    def ast(self, cls, **fields):
+        o = Obj('ast.' + cls, **fields)
+        o.attrs['__astclass__'] = cls
+        o.attrs['__closed__'] = True
+
+        def getattribute(k):
+            if k in o.attrs and not k.startswith('__'):
+                return o.attrs[k]
+            from ..fdeval import Raised
+            raise Raised('AttributeError', "'%s' object has no attribute %r" % (cls, k))
+        o.attrs['method:__getattribute__'] = getattribute
+        self.node(o)
+        return o
+
+    def node(self, astobj):
+        n = Obj('CaitNode<%s>' % astobj.attrs['__astclass__'], astNode=astobj)
+        n.attrs['__classdef__'] = self.cls
+        n.attrs['__closed__'] = True
+        astobj.attrs['cait_node'] = n
+        return n
+
+    def fd(self, mod):
+        from ..fdeval import module_resolver
+        fd = FD(max_steps=200000, resolver=module_resolver(self.sym, mod, extra={'ast.AST': 'ast.AST'}))
+        return self.configure(fd)
+
+
 def r2_name_plumbing(ctx, sym):
-    ctx.rule('R2', "CaitNode.ast_name is type(astNode).__name__ and op_name is type(field).__name__ "
-                   "(so table rows are compared with CPython class names)")
-    mod = ctx.repo.module(NODE)
-    ga = mod.func('CaitNode.__getattr__')
-    ctx.analysed_function(mod, ga)
-    gan = mod.func('CaitNode.get_ast_name')
-    ctx.analysed_function(mod, gan)
-    # get_ast_name returns type(<param>).__name__
-    params = [a.arg for a in gan.args.args]
-    rets = [n for n in body_walk(gan) if isinstance(n, ast.Return)]
-    ok = bool(rets) and all(
-        isinstance(r.value, ast.Attribute) and r.value.attr == '__name__'
-        and isinstance(r.value.value, ast.Call) and call_name(r.value.value) == 'type'
-        and isinstance(r.value.value.args[0], ast.Name) and r.value.value.args[0].id in params
-        for r in rets)
-    ctx.check(ok, 'R2', 'CaitNode.get_ast_name', mod, gan,
-              "get_ast_name no longer returns type(node).__name__",
-              "every ast_name comparison in find_operation / find_function_calls")
-    # in __getattr__: node_name = CaitNode.get_ast_name(self.astNode); return node_name under key == 'ast_name'
-    defs = {}
-    for n in body_walk(ga):
-        if isinstance(n, ast.Assign) and len(n.targets) == 1 and isinstance(n.targets[0], ast.Name):
-            defs.setdefault(n.targets[0].id, []).append(n.value)
+    ctx.rule('R2', "CaitNode.__getattr__, interpreted over model ast objects: ast_name is the node's class name, "
+                   "op_name the class name of its op field, .ops/.func/.left are the child nodes' CaitNodes (so table "
+                   "rows are compared with CPython class names)")
+    from ..fdeval import Raised
+    cm = CaitModel(ctx, sym)
+    fd = cm.fd(cm.mod)
+    env = {}
 
-    def is_astnode_type_name(e, depth=0):
-        if isinstance(e, ast.Name) and depth < 3:
-            ds = defs.get(e.id, [])
-            return bool(ds) and all(is_astnode_type_name(d, depth + 1) for d in ds)
-        if isinstance(e, ast.Call) and call_name(e) in ('CaitNode.get_ast_name', 'self.get_ast_name') \
-                and e.args and norm(e.args[0]) == 'self.astNode':
-            return True
-        if norm(e) == 'type(self.astNode).__name__':
-            return True
-        return False
+    def attr(node, name):
+        try:
+            return fd.eval(ast.parse('n.%s' % name, mode='eval').body, {'n': node})
+        except Raised as e:
+            return 'raises %s' % e.kind
+        except Inconclusive as e:
+            raise AnalysisError("C08 R2: CaitNode.__getattr__ outside the decidable fragment: %s" % e)
+    add = cm.ast('Add')
+    binop = cm.ast('BinOp', left=cm.ast('Name', id='a'), op=add, right=cm.ast('Name', id='b'))
+    lt, lte = cm.ast('Lt'), cm.ast('LtE')
+    cmp_ = cm.ast('Compare', left=cm.ast('Name', id='a'), ops=[lt, lte], comparators=[cm.ast('Name', id='b'),
+                                                                                        cm.ast('Name', id='c')])
+    call = cm.ast('Call', func=cm.ast('Attribute', value=cm.ast('Name', id='x'), attr='f'), args=[], keywords=[])
+    cases = [
+        ('BinOp.ast_name', attr(binop.attrs['cait_node'], 'ast_name'), 'BinOp'),
+        ('BinOp.op_name', attr(binop.attrs['cait_node'], 'op_name'), 'Add'),
+        ('Compare.ast_name', attr(cmp_.attrs['cait_node'], 'ast_name'), 'Compare'),
+        ('Compare.ops', attr(cmp_.attrs['cait_node'], 'ops'), [lt.attrs['cait_node'], lte.attrs['cait_node']]),
+        ('Lt.ast_name', attr(lt.attrs['cait_node'], 'ast_name'), 'Lt'),
+        ('Call.func', attr(call.attrs['cait_node'], 'func'), call.attrs['func'].attrs['cait_node']),
+        ('Attribute.attr', attr(call.attrs['func'].attrs['cait_node'], 'attr'), 'f'),
+        ('Attribute.ast_name', attr(call.attrs['func'].attrs['cait_node'], 'ast_name'), 'Attribute'),
+        ('Name.id', attr(binop.attrs['left'].attrs['cait_node'], 'id'), 'a'),
+    ]
+    for name, got, want in cases:
+        same = (got is want) or (isinstance(want, (str, list)) and isinstance(got, type(want)) and (
+            got == want if isinstance(want, str) else len(got) == len(want) and all(x is y for x, y in zip(got, want))))
+        ctx.check(same, 'R2', 'CaitNode.__getattr__:' + name, cm.mod, cm.ga,
+                  "%s evaluates to %r on the model node, expected %r" % (name, got, want),
+                  "find_operation / find_function_calls compare this attribute with CPython class names",
+                  construct=name)
 
-    found_ast_name = False
-    found_single = False
-    for n in body_walk(ga):
-        if isinstance(n, ast.If):
-            t = n.test
-            if isinstance(t, ast.Compare) and len(t.ops) == 1 and isinstance(t.ops[0], ast.Eq) \
-                    and isinstance(t.comparators[0], ast.Constant) and t.comparators[0].value == 'ast_name' \
-                    and isinstance(t.left, ast.Name) and t.left.id in ('key', 'item'):
-                r = n.body[0] if n.body else None
-                if isinstance(r, ast.Return) and is_astnode_type_name(r.value):
-                    found_ast_name = True
-            if isinstance(t, ast.Compare) and len(t.ops) == 1 and isinstance(t.ops[0], ast.In) \
-                    and norm(t.comparators[0]) == 'AST_SINGLE_FUNCTIONS' and norm(t.left) == 'item':
-                for st in n.body:
-                    if isinstance(st, ast.Return):
-                        v = st.value
-                        if isinstance(v, ast.Attribute) and v.attr == '__name__' and isinstance(v.value, ast.Call) \
-                                and call_name(v.value) == 'type' and isinstance(v.value.args[0], ast.Name):
-                            fld = v.value.args[0].id
-                            srcs = defs.get(fld, [])
-                            good = [s for s in srcs if isinstance(s, ast.Call) and (
-                                norm(s.func) in ('self.astNode.__getattribute__',) or
-                                (call_name(s) == 'getattr' and norm(s.args[0]) == 'self.astNode'))]
-                            if good:
-                                found_single = True
-    ctx.check(found_ast_name, 'R2', 'CaitNode.__getattr__:ast_name', mod, ga,
-              "no `return <type(self.astNode).__name__>` guarded by the 'ast_name' key",
-              "find_operation compares op.ast_name with the table row", construct='ast_name branch')
-    ctx.check(found_single, 'R2', 'CaitNode.__getattr__:op_name', mod, ga,
-              "no `return type(field).__name__` for AST_SINGLE_FUNCTIONS items",
-              "find_operation compares binop.op_name with the table row", construct='op_name branch')
-    singles = sym.const(mod, mod.top_assign('AST_SINGLE_FUNCTIONS'))
-    ctx.check('op_name' in singles, 'R2', 'AST_SINGLE_FUNCTIONS:op_name', mod,
-              mod.top_assign('AST_SINGLE_FUNCTIONS'),
-              "'op_name' is not a derived attribute any more", "binop.op_name")
-    # key = item[:-5] must strip exactly '_name'
-    strip_ok = False
-    for n in body_walk(ga):
-        if isinstance(n, ast.If) and norm(n.test) == 'item in AST_SINGLE_FUNCTIONS':
-            for st in n.body:
-                if isinstance(st, ast.Assign) and norm(st.targets[0]) == 'key':
-                    v = st.value
-                    if isinstance(v, ast.Subscript) and isinstance(v.slice, ast.Slice) and v.slice.lower is None \
-                            and norm(v.slice.upper) == '-%d' % len('_name') and norm(v.value) == 'item':
-                        strip_ok = True
-                    elif isinstance(v, ast.Call) and isinstance(v.func, ast.Attribute) and \
-                            v.func.attr in ('removesuffix',) and v.args and \
-                            isinstance(v.args[0], ast.Constant) and v.args[0].value == '_name':
-                        strip_ok = True
-    ctx.check(strip_ok, 'R2', 'CaitNode.__getattr__:strip_suffix', mod, ga,
-              "the '_name' suffix is not stripped exactly (op_name -> op)",
-              "binop.op_name would read the wrong ast field", construct="key = item[:-5]")
+
+OP_CLASSES = {
+    'Compare': ['Eq', 'NotEq', 'Lt', 'LtE', 'Gt', 'GtE', 'Is', 'IsNot', 'In', 'NotIn'],
+    'BoolOp': ['And', 'Or'],
+    'BinOp': ['Add', 'Sub', 'Mult', 'MatMult', 'Div', 'Mod', 'Pow', 'LShift', 'RShift', 'BitOr', 'BitXor', 'BitAnd',
+              'FloorDiv'],
+    'UnaryOp': ['Invert', 'Not', 'UAdd', 'USub'],
+}
+
+
+def model_tree(cm):
+    """A model program containing one node per operator class of every kind, plus chained comparisons. find_all(kind)
+    returns the nodes of that kind (CaitNode.find_all's own behaviour is R6's subject); every other attribute of a
+    node is computed by CaitNode.__getattr__ itself."""
+    by_kind = {}
+
+    def name(x):
+        return cm.ast('Name', id=x)
+    for kind, classes in OP_CLASSES.items():
+        nodes = []
+        for cls in classes:
+            if kind == 'Compare':
+                a = cm.ast('Compare', left=name('a'), ops=[cm.ast(cls)], comparators=[name('b')])
+            elif kind == 'BoolOp':
+                a = cm.ast('BoolOp', op=cm.ast(cls), values=[name('a'), name('b')])
+            elif kind == 'BinOp':
+                a = cm.ast('BinOp', left=name('a'), op=cm.ast(cls), right=name('b'))
+            else:
+                a = cm.ast('UnaryOp', op=cm.ast(cls), operand=name('a'))
+            n = a.attrs['cait_node']
+            n.attrs['__ops__'] = [cls]
+            n._name = '%s[%s]' % (kind, cls)
+            nodes.append(n)
+        by_kind[kind] = nodes
+    for chain in (['Lt', 'LtE'], ['Lt', 'Lt'], ['Eq', 'NotEq', 'Eq']):
+        a = cm.ast('Compare', left=name('a'), ops=[cm.ast(c) for c in chain],
+                   comparators=[name('b') for _ in chain])
+        n = a.attrs['cait_node']
+        n.attrs['__ops__'] = list(chain)
+        n._name = 'Compare[%s]' % ','.join(chain)
+        by_kind['Compare'].append(n)
+    root = Obj('root', __open__=True)
+    root.attrs['method:find_all'] = lambda kind, *a, **k: list(by_kind.get(kind, [])) if isinstance(kind, str) else \
+        [n for kk in kind for n in by_kind.get(kk, [])]
+    return root, by_kind
 
 
 def r3_finder(ctx, sym, tables):
-    ctx.rule('R3', "find_operation consults each table for its own node kind, appends only on an equal "
-                   "class name, the tables' key sets are disjoint; find_function_calls matches Name.id / "
-                   "Attribute.attr of Call.func")
+    ctx.rule('R3', "find_operation, executed abstractly for every operator symbol CPython knows (and some non-symbols) "
+                   "on a model tree holding one node per operator class of every kind plus chained comparisons: it "
+                   "returns exactly the nodes whose operator class is the one CPython's parser assigns to the symbol "
+                   "(a chained comparison once per matching operator); find_function_calls likewise returns exactly "
+                   "the calls whose callee is a Name/Attribute with that name")
+    from ..fdeval import FD, Raised, module_resolver
     mod = ctx.repo.module(FIND)
     fn = mod.func('find_operation')
     ctx.analysed_function(mod, fn)
-    arms = []
-    top_if = [s for s in fn.body if isinstance(s, ast.If)]
-    ctx.require(top_if, "find_operation has no dispatch chain")
-    node = top_if[-1]
-    while True:
-        arms.append(node)
-        if len(node.orelse) == 1 and isinstance(node.orelse[0], ast.If):
-            node = node.orelse[0]
-        else:
-            break
-    seen_tables = set()
-    for arm in arms:
-        t = arm.test
-        if not (isinstance(t, ast.Compare) and len(t.ops) == 1 and isinstance(t.ops[0], ast.In)
-                and isinstance(t.comparators[0], ast.Name) and t.comparators[0].id in TABLE_KIND):
-            raise AnalysisError("C08 R3: unrecognised dispatch test %s" % norm(t))
-        table = t.comparators[0].id
-        seen_tables.add(table)
-        key = 'find_operation:%s' % table
-        body_src = arm.body
-        arm_body = ast.Module(body=arm.body, type_ignores=[])
-        kinds = [c.args[0].value for c in calls(arm_body, 'find_all')
-                 if c.args and isinstance(c.args[0], ast.Constant)]
-        ok_kind = kinds == [TABLE_KIND[table]]
-        ctx.check(ok_kind, 'R3', key + ':kind', mod, arm,
-                  "table %s is consulted for node kind %s instead of %s" % (table, kinds, TABLE_KIND[table]),
-                  "find_operation on any symbol of that table returns nodes of the wrong kind",
-                  construct="if %s: ... find_all(%s)" % (norm(t), kinds))
-        # the append must be guarded by an equality between a derived name and TABLE[op_name]
-        appended = False
-        for n in ast.walk(ast.Module(body=body_src, type_ignores=[])):
-            if isinstance(n, ast.If):
-                c = n.test
-                if isinstance(c, ast.Compare) and len(c.ops) == 1 and isinstance(c.ops[0], ast.Eq):
-                    sides = [c.left, c.comparators[0]]
-                    tab_side = [s for s in sides if isinstance(s, ast.Subscript) and norm(s.value) == table]
-                    attr_side = [s for s in sides if isinstance(s, ast.Attribute)
-                                 and s.attr in ('ast_name', 'op_name')]
-                    if tab_side and attr_side and any(True for _ in calls(
-                            ast.Module(body=n.body, type_ignores=[]), 'append')):
-                        want = 'ast_name' if table == 'COMPARE_OP_NAMES' else 'op_name'
-                        if attr_side[0].attr == want and norm(tab_side[0].slice) == norm(t.left):
-                            appended = True
-        ctx.check(appended, 'R3', key + ':compare', mod, arm,
-                  "no `if <node>.%s == %s[op_name]: found.append(...)` in this arm" % (
-                      'ast_name/op_name', table),
-                  "find_operation returns nodes regardless of their operator", construct=norm(t))
-        if table == 'COMPARE_OP_NAMES':
-            iter_ops = any(isinstance(n, ast.For) and isinstance(n.iter, ast.Attribute) and n.iter.attr == 'ops'
-                           for n in ast.walk(arm_body))
-            ctx.check(iter_ops, 'R3', key + ':ops', mod, arm,
-                      "comparison arm does not iterate over every operator of a chained comparison",
-                      "`a < b <= c` with find_operation('<=')", construct=norm(t))
-    ctx.check(seen_tables == set(TABLE_KIND), 'R3', 'find_operation:all_tables', mod, fn,
-              "find_operation does not consult all four tables (%s)" % sorted(seen_tables),
-              "symbols of the missing table are never found", construct='dispatch chain')
+    cm = CaitModel(ctx, sym)
+    symbols = {'Compare': ['==', '!=', '<', '<=', '>', '>=', 'is', 'is not', 'in', 'not in'],
+               'BoolOp': ['and', 'or'],
+               'BinOp': ['+', '-', '*', '@', '/', '%', '**', '<<', '>>', '|', '^', '&', '//'],
+               'UnaryOp': ['~', 'not']}
+    n = 0
+    for kind, syms in symbols.items():
+        for symbol in syms:
+            n += 1
+            root, by_kind = model_tree(cm)
+            fd = cm.fd(mod)
+            fd.calls['parse_program'] = lambda *a, **k: root
+            try:
+                got = fd.call_function(fn, [symbol, root])
+            except Raised as e:
+                got = 'raises %s' % e.kind
+            except Inconclusive as e:
+                raise AnalysisError("C08 R3: find_operation outside the decidable fragment: %s" % e)
+            cls = cpython_op_class(symbol, kind)
+            want = [node for node in by_kind[kind] for c in node.attrs['__ops__'] if c == cls]
+            ok = isinstance(got, list) and len(got) == len(want) and all(a is b for a, b in zip(got, want))
+            ctx.check(ok, 'R3', 'find_operation(%r)' % symbol, mod, fn,
+                      "find_operation(%r) on the model tree returns %s; CPython parses %r as %s, so the answer is %s" % (
+                          symbol, got, symbol, cls, want),
+                      "ensure_operation(%r) / prevent_operation(%r) on a program using %s" % (symbol, symbol, cls),
+                      construct='find_operation')
+    # binary symbols that are also unary (+, -): BinOp wins in the documented chain; a non-symbol finds nothing
+    for symbol in ('<>', 'plus', ''):
+        root, by_kind = model_tree(cm)
+        fd = cm.fd(mod)
+        try:
+            got = fd.call_function(fn, [symbol, root])
+        except Raised as e:
+            got = 'raises %s' % e.kind
+        except Inconclusive as e:
+            raise AnalysisError("C08 R3: find_operation outside the decidable fragment: %s" % e)
+        ctx.check(got == [], 'R3', 'find_operation(%r):non-symbol' % symbol, mod, fn,
+                  "find_operation(%r) returns %s for something that is not an operator" % (symbol, got),
+                  "prevent_operation(%r) fires on arbitrary programs" % symbol)
+    ctx.floor('R3', 'operator symbols executed', n, 25)
     names = list(tables)
     for i, a in enumerate(names):
         for b in names[i + 1:]:
@@ -253,24 +305,36 @@ def r3_finder(ctx, sym, tables):
     # find_function_calls
     fc = mod.func('find_function_calls')
     ctx.analysed_function(mod, fc)
-    src = norm(fc)
-    kinds = [c.args[0].value for c in calls(fc, 'find_all') if c.args and isinstance(c.args[0], ast.Constant)]
-    ctx.check(kinds == ['Call'], 'R3', 'find_function_calls:kind', mod, fc,
-              "find_function_calls walks %s, not Call nodes" % kinds, "ensure_function_call('f')")
-    want = {('Attribute', 'attr'), ('Name', 'id')}
-    got = set()
-    for n in ast.walk(fc):
-        if isinstance(n, ast.If) and isinstance(n.test, ast.Compare) and isinstance(n.test.ops[0], ast.Eq) \
-                and isinstance(n.test.comparators[0], ast.Constant) and norm(n.test.left).endswith('.func.ast_name'):
-            kind = n.test.comparators[0].value
-            for m in n.body:
-                if isinstance(m, ast.If) and isinstance(m.test, ast.Compare) and isinstance(m.test.ops[0], ast.Eq) \
-                        and norm(m.test.comparators[0]) == 'name' and isinstance(m.test.left, ast.Attribute) \
-                        and any(True for _ in calls(ast.Module(body=m.body, type_ignores=[]), 'append')):
-                    got.add((kind, m.test.left.attr))
-    ctx.check(got == want, 'R3', 'find_function_calls:match', mod, fc,
-              "call-name matching is %s, expected Name.id and Attribute.attr equality" % sorted(got),
-              "student program calling f() and obj.f()", construct='if a_call.func.ast_name == ...')
+
+    def call_node(tag, func):
+        n = cm.ast('Call', func=func, args=[], keywords=[]).attrs['cait_node']
+        n._name = 'Call[%s]' % tag
+        return n
+    model_calls = [
+        call_node('f()', cm.ast('Name', id='f')),
+        call_node('g()', cm.ast('Name', id='g')),
+        call_node('x.f()', cm.ast('Attribute', value=cm.ast('Name', id='x'), attr='f')),
+        call_node('x.g()', cm.ast('Attribute', value=cm.ast('Name', id='x'), attr='g')),
+        call_node('f.g()', cm.ast('Attribute', value=cm.ast('Name', id='f'), attr='g')),
+        call_node('h()()', cm.ast('Call', func=cm.ast('Name', id='h'), args=[], keywords=[])),
+        call_node('t[0]()', cm.ast('Subscript', value=cm.ast('Name', id='t'), slice=cm.ast('Constant', value=0))),
+    ]
+    for name, want_tags in (('f', ['f()', 'x.f()']), ('g', ['g()', 'x.g()', 'f.g()']), ('x', []), ('h', [])):
+        root = Obj('root', __open__=True)
+        root.attrs['method:find_all'] = lambda kind, *a, **k: list(model_calls) if kind == 'Call' else []
+        fd = cm.fd(mod)
+        fd.calls['parse_program'] = lambda *a, **k: root
+        try:
+            got = fd.call_function(fc, [name, root])
+        except Raised as e:
+            got = 'raises %s (%s)' % (e.kind, e.detail)
+        except Inconclusive as e:
+            raise AnalysisError("C08 R3: find_function_calls outside the decidable fragment: %s" % e)
+        tags = [g._name[5:-1] for g in got] if isinstance(got, list) else got
+        ctx.check(tags == want_tags, 'R3', 'find_function_calls(%r)' % name, mod, fc,
+                  "find_function_calls(%r) on the model calls returns %s, expected %s" % (name, tags, want_tags),
+                  "ensure_function_call(%r) on a program calling f(), x.f(), h()() and t[0]()" % name,
+                  construct='find_function_calls')
 
 
 def r4_thresholds(ctx, sym):
@@ -381,67 +445,99 @@ def r5_siblings(ctx, sym):
 
 
 def r6_constant_split(ctx, sym):
-    ctx.rule('R6', "the Constant split Bool/Num/Str is mutually exclusive and follows CPython value types "
-                   "(bool tested by isinstance bool; Num excludes bool); installed as visit_Constant")
-    mod = ctx.repo.module(NODE)
-    fn = mod.func('CaitNode._handle_visit_constant')
-    ctx.analysed_function(mod, fn)
-    inner = [n for n in fn.body if isinstance(n, ast.FunctionDef)]
-    ctx.require(inner, "_handle_visit_constant no longer defines the visitor closure")
-    inner = inner[0]
-    preds = {}
-    for n in ast.walk(inner):
-        if isinstance(n, ast.If) and isinstance(n.test, ast.BoolOp) and isinstance(n.test.op, ast.And):
-            kind = None
-            rest = []
-            for v in n.test.values:
-                if isinstance(v, ast.Compare) and isinstance(v.ops[0], ast.Eq) and \
-                        isinstance(v.comparators[0], ast.Constant) and v.comparators[0].value in ('Bool', 'Num', 'Str'):
-                    kind = v.comparators[0].value
-                else:
-                    rest.append(v)
-            if kind:
-                preds[kind] = rest
-    ctx.require(set(preds) == {'Bool', 'Num', 'Str'}, "Constant split predicates not recognised: %s" % sorted(preds))
-
-    def model(kind, value):
-        res = True
-        for v in preds[kind]:
-            neg = False
-            if isinstance(v, ast.UnaryOp) and isinstance(v.op, ast.Not):
-                neg, v = True, v.operand
-            if not (isinstance(v, ast.Call) and call_name(v) == 'isinstance' and norm(v.args[0]) == 'node.value'):
-                raise AnalysisError("C08 R6: predicate %s outside the recognised isinstance idiom" % norm(v))
-            types = v.args[1].elts if isinstance(v.args[1], ast.Tuple) else [v.args[1]]
-            tys = tuple({'int': int, 'float': float, 'bool': bool, 'str': str, 'complex': complex,
-                         'bytes': bytes}[t.id] for t in types)
-            r = isinstance(value, tys)
-            res = res and (not r if neg else r)
-        return res
-    reps = [True, False, 0, 1, -3, 2.5, 0.0, 'a', '', None, b'x', 1j, ...]
-    want = {'Bool': lambda v: type(v) is bool, 'Num': lambda v: type(v) in (int, float),
-            'Str': lambda v: type(v) is str}
-    for kind in ('Bool', 'Num', 'Str'):
-        for v in reps:
-            got = model(kind, v)
-            ctx.check(got == want[kind](v), 'R6', '_handle_visit_constant[%s](%r)' % (kind, v), mod, inner,
-                      "a Constant holding %r is %s as %s" % (v, 'counted' if got else 'not counted', kind),
-                      "program containing the literal %r with ensure_literal_type / find_all(%r)" % (v, kind),
-                      construct='predicate for %s' % kind)
+    ctx.rule('R6', "CaitNode.find_all, executed abstractly on a model program with a model of ast.NodeVisitor's "
+                   "dispatch: find_all('Bool'/'Num'/'Str') return exactly the Constant nodes whose value has that "
+                   "CPython type (bool is not a Num), find_all(<real class name>) exactly the nodes of that class, in "
+                   "document order")
+    from ..fdeval import Raised
+    cm = CaitModel(ctx, sym)
+    mod = cm.mod
     fa = mod.func('CaitNode.find_all')
     ctx.analysed_function(mod, fa)
-    ok = False
-    for n in ast.walk(fa):
-        if isinstance(n, ast.If):
-            t = norm(n.test)
-            if "in ('Num', 'Str', 'Bool')" in t:
-                names = [s.value.value for s in n.body if isinstance(s, ast.Assign)
-                         and isinstance(s.value, ast.Constant)]
-                if names == ['visit_Constant']:
-                    ok = True
-    ctx.check(ok, 'R6', 'find_all:visit_Constant', mod, fa,
-              "Num/Str/Bool pseudo-kinds are not installed under the real class name visit_Constant",
-              "find_all('Num') on any program (ast.Num does not exist for the parser)", construct='find_all')
+    ctx.analysed_function(mod, mod.func('CaitNode._handle_visit_constant'))
+    values = [True, False, 0, 1, -3, 2.5, 0.0, 'a', '', None, b'x', 1j, ...]
+    consts = [cm.ast('Constant', value=v) for v in values]
+    names = [cm.ast('Name', id='v%d' % i) for i in range(len(values))]
+    stmts = [cm.ast('Assign', targets=[n], value=c) for n, c in zip(names, consts)]
+    binop = cm.ast('BinOp', left=cm.ast('Name', id='p'), op=cm.ast('Add'), right=cm.ast('Constant', value=7))
+    stmts.append(cm.ast('Expr', value=binop))
+    module = cm.ast('Module', body=stmts)
+    all_consts = consts + [binop.attrs['right']]
+    doc_order = []
+
+    def children(node):
+        for k, v in node.attrs.items():
+            if k.startswith('__') or k.startswith('method:') or k == 'cait_node':
+                continue
+            for x in (v if isinstance(v, list) else [v]):
+                if isinstance(x, Obj) and '__astclass__' in x.attrs:
+                    yield x
+
+    def walk(node):
+        doc_order.append(node)
+        for c in children(node):
+            walk(c)
+    walk(module)
+
+    def new_visitor():
+        vis = Obj('NodeVisitor')
+
+        def visit(node):
+            m = vis.attrs.get('method:visit_' + node.attrs['__astclass__'])
+            if m is not None:
+                return m(node)
+            return generic_visit(node)
+
+        def generic_visit(node):
+            for c in children(node):
+                visit(c)
+        vis.attrs['method:visit'] = visit
+        vis.attrs['method:generic_visit'] = generic_visit
+        return vis
+
+    def b_setattr(o, name, value):
+        if callable(value):
+            o.attrs['method:' + name] = value
+        else:
+            o.attrs[name] = value
+
+    def method_type(f, inst):
+        return lambda *a, **k: f(inst, *a, **k)
+    want = {'Bool': lambda v: type(v) is bool, 'Num': lambda v: type(v) in (int, float),
+            'Str': lambda v: type(v) is str}
+    queries = [(k, [c for c in all_consts if want[k](c.attrs['value'])]) for k in ('Bool', 'Num', 'Str')]
+    queries.append(('Constant', list(all_consts)))
+    queries.append(('BinOp', [binop]))
+    queries.append(('Name', [n for n in doc_order if n.attrs['__astclass__'] == 'Name']))
+    queries.append((['BinOp', 'Assign'], [n for n in doc_order if n.attrs['__astclass__'] in ('BinOp', 'Assign')]))
+    queries.append(('While', []))
+    for q, expect in queries:
+        fd = cm.fd(mod)
+        fd.calls['type'] = lambda o: type(o) if not isinstance(o, Obj) else Obj(
+            'type', __name__=o.attrs.get('__astclass__', o._name), __closed__=True)
+        fd.calls['ast.NodeVisitor'] = new_visitor
+        fd.calls['setattr'] = b_setattr
+        fd.calls['MethodType'] = method_type
+        fd.calls['types.MethodType'] = method_type
+        try:
+            got = fd.call_function(fa, [q], bound_self=module.attrs['cait_node'])
+        except Raised as e:
+            got = 'raises %s (%s)' % (e.kind, e.detail)
+        except Inconclusive as e:
+            raise AnalysisError("C08 R6: CaitNode.find_all outside the decidable fragment: %s" % e)
+        want_nodes = [n.attrs['cait_node'] for n in doc_order if any(n is x for x in expect)]
+        ok = isinstance(got, list) and len(got) == len(want_nodes) and all(x is y for x, y in zip(got, want_nodes))
+
+        def show(nodes):
+            if not isinstance(nodes, list):
+                return nodes
+            return [('Constant(%r)' % x.attrs['astNode'].attrs['value']) if isinstance(x, Obj) and
+                    x.attrs.get('astNode') is not None and x.attrs['astNode'].attrs.get('__astclass__') == 'Constant'
+                    else getattr(x, '_name', x) for x in nodes]
+        ctx.check(ok, 'R6', 'find_all(%r)' % (q,), mod, fa,
+                  "find_all(%r) on the model program returns %s, expected %s" % (q, show(got), show(want_nodes)),
+                  "a program containing the literals %r with ensure_literal_type / find_all(%r)" % (values, q),
+                  construct='find_all / _handle_visit_constant')
 
 
 def r7_literal_identity(ctx, sym):
